@@ -279,7 +279,8 @@ def job(j):
                          "deleted": list(U), "program_without": P2})
                 if extra:
                     cu = [d["cls"] for d in program["decls"] if d["k"] == "new" and d["cls"] not in analysis.REMOVABLE_SKIP]
-                    add({"dir": "deletion-diff", "side": "extra", "elements": sorted(set(cu))},
+                    add({"dir": "deletion-diff", "side": "extra", "elements": sorted(set(cu)),
+                         "culprit_family": "buffer" if any("Buffer" in c for c in cu) else "other"},
                         {"program": program, "leaf": analysis._leaf_list(extra[0]), "expect": "reject", "solver": {},
                          "deleted": list(U), "program_without": P2})
                 # indicator values of corresponding leaves
